@@ -94,6 +94,12 @@ def larger_configs(tier):
         for noise in (('depol', 'Zbias') if tier != 'quick' else ('depol',)):
             cfgs.append({'decoder': 'BeliefPropagationOSDDecoder', 'code': cname,
                          'size': list(size), 'noise': noise, 'p': p, 'dec_kwargs': dict(bpu)})
+    # the randomised sweep decoders: no purity across objects is required, but
+    # the caller's syndrome and the noise tables must be left alone
+    for dname, cname, size in [('SweepMatchDecoder', 'Toric3DCode', (3, 3, 3)),
+                               ('SweepMatchDecoder', 'Planar3DCode', (2, 3, 3)),
+                               ('RotatedSweepMatchDecoder', 'RotatedPlanar3DCode', (3, 3, 2))]:
+        cfgs.append({'decoder': dname, 'code': cname, 'size': list(size), 'noise': 'depol', 'p': 0.03})
     for size in [(4, 4), (3, 5)]:
         cfgs.append({'decoder': 'MatchingDecoder', 'code': 'Toric2DCode', 'size': list(size),
                      'noise': 'Zbias', 'p': 0.05})
